@@ -2,6 +2,7 @@
 import json
 import re
 from ..suites import serde as S
+from ..suites import extras as X
 from .. import dump
 
 ID = "C06"
@@ -14,7 +15,10 @@ RULE = ("classes over the serializable fragment (20% with lossy kinds); document
         "name, missing key, extra key, null, dropped/added array element) and a non-object top level; keep_undefined in "
         "{True, False, None} x ignore_invalid_additional_properties in {True, False}; oracle = Lean expectedDeser "
         "(constructor applied to the documented lifting of the document) vs the real Deserializer; non-trivial = "
-        "constraint or nesting; distinct by case hash")
+        "constraint or nesting; distinct by case hash; plus an oracle-only stream (suites/extras.py, no model counterpart): "
+        "documents of classes over DecimalNumber / Enum by value and by name (plain, IntEnum, Flag, str enums) / date, time "
+        "and formatted-string fields, bare and inside Optional/Array/Deque/Set/Map/Tuple, with one leaf replaced by each of "
+        "12 wrong-type / ill-formatted values: a rejection must be a TypeError or ValueError")
 ASSUMPTIONS = [
     "mapper-free; fail-fast mode (the default); AnyOf/OneOf/AllOf/NotField fields are corresponded but have no lifting spec (they need the validation result to choose an option)",
     "Enum serialization_by_value, DecimalNumber, date/time fields, compact deserialization are not in the model",
@@ -22,21 +26,43 @@ ASSUMPTIONS = [
 
 
 def cases(rng, tier):
-    return [c for c in S.gen_cases(rng, tier, 200 if tier == "quick" else 3000) if c["mode"] == "deser"]
+    return [c for c in S.gen_cases(rng, tier, 200 if tier == "quick" else 3000) if c["mode"] == "deser"] \
+        + X.directed_corrupt_cases() + X.gen_corrupt_cases(rng, 300 if tier == "quick" else 6000)
 
 
 def search_cases(rng, tier):
-    return [c for c in S.gen_cases(rng, "thorough", 600) if c["mode"] == "deser"]
+    return [c for c in S.gen_cases(rng, "thorough", 600) if c["mode"] == "deser"] + X.gen_corrupt_cases(rng, 1500)
 
 
-run_impl = S.run_impl
-line = S.line
-tags = S.tags
-nontrivial = S.nontrivial
-describe = S.describe
+def _x(case):
+    return case.get("suite") == "extras-corrupt"
+
+
+def run_impl(case):
+    return X.run_corrupt(case) if _x(case) else S.run_impl(case)
+
+
+def line(case, impl):
+    return None if _x(case) else S.line(case, impl)
+
+
+def tags(case, impl, model):
+    if _x(case):
+        return ["stream:extras-corrupt", "extras:" + impl.get("out", "skipped")] + (["extras-exc:" + impl["exc"]] if "exc" in impl else [])
+    return S.tags(case, impl, model)
+
+
+def nontrivial(case):
+    return True if _x(case) else S.nontrivial(case)
+
+
+def describe(case, impl, model):
+    return {"extras": case["fields"], "doc": impl.get("doc"), "out": impl.get("out"), "exc": impl.get("exc")} if _x(case) else S.describe(case, impl, model)
 
 
 def judge(case, impl, model):
+    if _x(case):
+        return None, X.judge_corrupt(case, impl)
     msg = S.correspondence(case, impl, model)
     fails = []
     if "unbuildable" in impl or "abstraction_mismatch" in impl or "deser" not in impl:
